@@ -664,6 +664,22 @@ func (c *c18) decCoins() {
 			} else if hasNeg != neg {
 				c.fail("C18/DecCoins.SafeSub/flag", fmt.Sprintf("(%s).SafeSub(%s): negative flag %v, want %v", a, b, hasNeg, neg), rep)
 			}
+			// TruncateDecimal splits a set into its integer part and the rest: nothing is lost
+			c.eval++
+			var tr sdk.Coins
+			var ch sdk.DecCoins
+			if p, msg := try(func() { tr, ch = sum.TruncateDecimal() }); p {
+				c.fail("C18/DecCoins.TruncateDecimal/panic", fmt.Sprintf("(%s).TruncateDecimal() panicked: %s", sum, msg), rep)
+			} else {
+				for i, d := range denoms {
+					tot := A[i] + B[i] // tenths
+					wantInt, wantFrac := tot/10, sdk.NewDecWithPrec(tot%10, 1)
+					if tr.AmountOf(d).Int64() != wantInt || !ch.AmountOf(d).Equal(wantFrac) {
+						c.fail("C18/DecCoins.TruncateDecimal/wrong-result", fmt.Sprintf("(%s).TruncateDecimal() = %s + %s", sum, tr, ch), rep)
+						break
+					}
+				}
+			}
 			if a.String() != mk(A).String() || b.String() != mk(B).String() {
 				c.fail("C18/DecCoins/operand-mutated", fmt.Sprintf("operands changed: %s / %s", a, b), rep)
 			}
